@@ -79,6 +79,22 @@ Theorem h2_converter_exact :
         existsb f_end fs = true -> bl = [] /\ payload_of fs = List.concat cs).
 Proof. exact h2_converter_exact_proof. Qed.
 
+(** 1c. h2_trailers_after_body: a response that ends with a trailer section (HTTP/1.1 chunked with
+    trailers, toward an H2 client; the op h2convt runs the real kawa parser and the real converter on
+    such responses): in any prepare — any window, frame size, chunking — the HEADERS frame that carries
+    the trailers and END_STREAM comes at most once, as the last frame, only when the whole body is out
+    and nothing is queued, and no DATA frame before it carries END_STREAM. *)
+Theorem h2_trailers_after_body :
+  forall fuel w max cs n,
+    n <> 0 ->
+    let '(fs, bl, _) := h2_prepare fuel w max (map BChunk cs ++ [BEnd]) in
+    let out := h2_out_with_trailers n fs in
+    existsb is_trailers out = true ->
+    exists body_frames,
+      out = map (fun f => OData (f_payload f) false) body_frames ++ [OTrailers n] /\
+      payload_of body_frames = List.concat cs /\ bl = [].
+Proof. exact h2_trailers_after_body_proof. Qed.
+
 (** 2. relay_prefix: for every buffer capacity and every schedule of ingest /
     convert / flush steps, what has been written so far, followed by what is
     queued, buffered and unread, is the body: the receiver holds a prefix —
@@ -177,6 +193,8 @@ Example framing_nonvacuous :
   /\ h2_prepare 10 5%Z 3 [BChunk [1; 2; 3; 4; 5; 6; 7]%N; BEnd]
      = ([mkF [1; 2; 3]%N 0 false; mkF [4; 5]%N 0 false], [BChunk [6; 7]%N; BEnd], 0%Z)
   /\ h2_prepare 10 50%Z 4 [BChunk [1; 2; 3]%N; BEnd] = ([mkF [1; 2; 3]%N 0 false; mkF [] 0 true], [], 47%Z)
+  /\ h2_out_with_trailers 2 (fst (fst (h2_prepare 10 50%Z 4 [BChunk [1; 2; 3]%N; BEnd])))
+     = [OData [1; 2; 3]%N false; OTrailers 2]
   /\ tcp_write 100 10 0 [KWrote 3; KWrote 20] = (10, Continue, [])
   /\ tcp_write 100 10 0 [KWrote 3; KWouldBlock] = (3, WouldBlock, []).
 Proof. vm_compute. repeat split; reflexivity. Qed.
